@@ -843,6 +843,11 @@ impl Connection {
             _ => return Err(ConnectionInnerError::IllegalState),
         }
 
+        // A channel that is still mapped to a session cannot be begun again
+        if self.session_by_incoming_channel.contains_key(&channel) {
+            return Err(ConnectionInnerError::IllegalState);
+        }
+
         match begin.remote_channel {
             // This corresponds a locally initiated session
             Some(outgoing_channel) => {
